@@ -253,7 +253,7 @@ class Violin(object):
             # blend regular spacing and ecdf spacing
             q = np.linspace(0, 1, npts//2)
             err = 1e-6 * np.random.uniform(-1, 1, len(q))
-            x = np.concatenate([np.linspace(x0, x1, npts // 2),
+            x = np.concatenate([np.linspace(x0, x1, npts - npts // 2),
                                 sen.quantile(q) + err])
             x = np.sort(x)
             y = kernel(x)
